@@ -112,6 +112,11 @@ Note(k, v) ==
                                                        LB("QH", 1, n \o "q1", <<>>), LB("QP", 0, n \o "qp", <<>>),
                                                        LB("QH", 2, n \o "q2", <<>>), LB("QP", 0, n \o "qq", <<L(a, "inline", n \o "ql")>>),
                                                        P("tail", <<>>)>>]
+      \* three lists in a row (bullet, ordered, bullet): changing the type of the middle one makes three of a kind
+      [] v = 18 -> [title |-> "T" \o n, blocks |-> <<LB("Item", 0, n \o "i1", <<>>), LB("Item", 0, n \o "i2", <<>>),
+                                                       LB("OItem", 0, n \o "o1", <<L(a, "inline", n \o "ol")>>), LB("OItem", 0, n \o "o2", <<>>),
+                                                       LB("Item", 0, n \o "i3", <<>>), LB("Item", 0, n \o "i4", <<>>),
+                                                       P("tail", <<>>)>>]
       [] v = 9 -> [title |-> "T" \o n, blocks |-> <<LB("Ref", 0, n \o "m", <<L(Rel(MISSING, d), "inline", n \o "mm")>>),
                                                       P("x", <<X("https://example.com/" \o n, n \o "xx"), X("HTTPS://EXAMPLE.COM/" \o n, n \o "xy")>>),
                                                       P("w", <<L(a, "wiki", ""), L(b, "piped", n \o "pb")>>)>>]
@@ -140,7 +145,7 @@ Update(k, v) ==
     /\ steps' = Append(steps, [key |-> k, note |-> Note(k, v), new |-> k \notin DOMAIN docs])
     /\ UNCHANGED init
 
-GNext == (\E v1, v2, v3 \in 0..17 : Start(v1, v2, v3)) \/ (\E k \in {K1, K2, K3, K4, K5, K6}, v \in 0..17 : Update(k, v))
+GNext == (\E v1, v2, v3 \in 0..18 : Start(v1, v2, v3)) \/ (\E k \in {K1, K2, K3, K4, K5, K6}, v \in 0..18 : Update(k, v))
 GSpec == GInit /\ [][GNext]_vars
 
 Emit == Started => PrintT(<<"HIST", ToJson([init |-> init, steps |-> steps])>>)
